@@ -68,6 +68,7 @@ def abi(tstr, records=None):
 
 
 LAYOUTS = {"f": {}, "c": {}}
+CSHAPES = {}  # (struct name, field name) -> [extents] of a fixed-size array member, outermost first, as clang reports it
 CALLBACKS = {}  # (C function name, parameter name) -> (result class, [parameter classes], type text) of a function-pointer parameter
 
 
@@ -229,6 +230,9 @@ def clang_view(files, cwd, incs=()):
                         else:
                             cls = abi(ts)
                         fields.append((ch.get("name"), cls))
+                        ext = re.findall(r"\[(\d+)\]", ts)
+                        if ext and "(" not in ts:
+                            CSHAPES[(norm_struct(node["name"]), (ch.get("name") or "").lower())] = [int(x) for x in ext]
                     elif ch.get("kind") in ("RecordDecl",) and not ch.get("name"):
                         pass
                 structs[norm_struct(node["name"])] = fields
@@ -417,6 +421,7 @@ def compare_dir(out, lang, user_headers, user_incs, label):
     files += [(h, lang) for h in user_headers]
     probs += cfi_attribute_problems(out, label)
     CALLBACKS.clear()
+    CSHAPES.clear()
     cfuncs, cstructs = clang_view(files, out, user_incs)
     LAYOUTS["c"] = cstructs
     LAYOUTS["f"] = {}
@@ -512,6 +517,21 @@ def compare_dir(out, lang, user_headers, user_incs, label):
                 if not compatible(fc, cc) and not (fc[0] == "struct" and cc[0] == "struct" and fc[1] == cc[1]):
                     probs.append(("struct %s.%s" % (sname, fn), "%s: component %s of %s is %s in Fortran and %s (%s) in C" % (label, fn, sname, fc, cc, cn)))
                     break
+    # the shape of a fixed-size array member (gfortran's C view flattens it): Fortran extents are the C extents in reverse order
+    for f in fmods:
+        ftext = re.sub(r"&\s*\n\s*&?", " ", open(os.path.join(out, f), errors="replace").read())
+        for tm in re.finditer(r"(?im)^\s*type\s*,\s*bind\(C\)\s*::\s*(\w+)\s*$(.*?)^\s*end\s+type", ftext, re.S):
+            sname = norm_struct(tm.group(1))
+            cands = [k for k in set(k0 for k0, _ in CSHAPES) if k == sname or k.replace("_", "") == sname.replace("_", "")]
+            for cm in re.finditer(r"(?im)^[^!\n]*::\s*(\w+)\s*\(([^)]*)\)\s*$", tm.group(2)):
+                fdims = [x.strip() for x in cm.group(2).split(",")]
+                for cs in cands:
+                    cdims = CSHAPES.get((cs, cm.group(1).lower()))
+                    if cdims is None or not all(x.isdigit() for x in fdims):
+                        continue
+                    if [int(x) for x in reversed(fdims)] != cdims:
+                        probs.append(("struct %s.%s shape" % (sname, cm.group(1).lower()), "%s: member %s of %s has the C extents %s and the Fortran shape (%s): Fortran extents are the C extents in reverse order" % (
+                            label, cm.group(1), sname, "".join("[%d]" % x for x in cdims), ",".join(fdims))))
     cv, fv = sh_types(out)
     for k in sorted(set(cv) & set(fv)):
         if cv[k] != fv[k]:
@@ -642,7 +662,7 @@ def stmt_libs():
             ay["language"] = "c"
         out.append(("parameters in array syntax (%s)" % lang, lang, ay, hname, "int sum3(int arg[3]);\ndouble trace(double m[2][2]);\n"))
     # members of an interoperable struct: every native kind, bool, char, fixed arrays (one and two extents), pointers, arrays of pointers
-    recd = "struct Rec { int n; bool on; char code; double *rows[3]; float w[2][3]; long big; char name[8]; short s; int *p; unsigned int u; long long ll; size_t z; double d; bool flags[2]; };"
+    recd = "struct Rec { int n; bool on; char code; double *rows[3]; float w[2][3]; int *grid[2][3]; double cube[2][3][4]; long big; char name[8]; short s; int *p; unsigned int u; long long ll; size_t z; double d; bool flags[2]; };"
     for lang in ("c", "cxx"):
         hname = "rec.h" if lang == "c" else "rec.hpp"
         ry = {"library": "smem", "cxx_header": hname, "options": {"wrap_python": False, "wrap_lua": False},
